@@ -269,6 +269,26 @@ def corpus_cases(prop: str) -> list[dict]:
     return out
 
 
+class guarded:
+    """`with guarded(res, kind, input):` — an exception escaping the real code inside a scenario that runs cleanly on the
+    unchanged tree is a concrete failing input (recorded with the traceback tail), never a harness error"""
+
+    def __init__(self, res, kind, inp):
+        self.res, self.kind, self.inp = res, kind, inp
+
+    def __enter__(self):
+        return self
+
+    def __exit__(self, et, ev, tb):
+        if et is None or not issubclass(et, Exception):
+            return False
+        if issubclass(et, DriverError):
+            return False
+        self.res.failures.append({'kind': self.kind, 'input': self.inp,
+                                  'observed': ''.join(traceback.format_exception(et, ev, tb))[-900:]})
+        return True
+
+
 def known_findings() -> list[dict]:
     p = VERIF / 'known_findings.json'
     if not p.exists():
